@@ -498,14 +498,20 @@ def h_stream_step(prop, case, facts, kind="dfa", t=6, spare=1, fault=False, time
     cap = case.maxlen + spare
     name = "h_sstep_%s_%s_t%d_cap%d_f%d" % (case.name, kind, t, cap, int(fault))
     body = _body(case, kind, "t::stream_step::<%s, _, %d, %d, %s>(&a)" % (case.mod, t, cap, "true" if fault else "false"))
-    schema = []
-    meta = dict(template="stream_step", kind=kind, T=t, cap=cap, fault=fault,
+    schema = [("hay", ("bytes", t))]
+    meta = dict(template="stream_step", replay_template="stream", kind=kind, T=t, cap=cap, fault=fault,
+                fixed_inputs={"spare": spare, "fault": int(fault)},
                 symbolic=["stream bytes", "iterator pre-state under Inv (reader offset, buffer end, buffer_pos, buffer_reported_pos, end of last match)",
                           "size of every read() (the schedule)"] + (["index of the failing read() call"] if fault else []),
                 induction="one next() from every state satisfying Inv yields the next piece of the specification's chunk sequence and re-establishes Inv; the initial state satisfies Inv trivially, so the claim covers streams of any length over this automaton, buffer capacity cap and pattern list",
                 environment_stubs=["impl Read returning a symbolic count in 1..=min(remaining, buf.len()), 0 only at end of data"])
     unwind = max(base_unwind(case, facts, t), cap + 2, t + 2)
     unsat = set() if fault else {"an error after some bytes were read in the same call"}
+    if t < cap:
+        # a stream that fits into the buffer never rolls it
+        unsat |= {"a match after the buffer rolled", "a match in the call that rolled the buffer"}
+    if t < case.minlen:
+        unsat |= {"a match chunk"}
     return Harness(name, case, body, unwind, schema, meta, timeout=timeout, mem_gb=24, functions=F_STREAM + F_KIND[kind],
                    unsat_ok=unsat, unwindset=stream_unwindset(case, t, cap))
 
@@ -514,10 +520,10 @@ def h_stream_run(prop, case, facts, kind="dfa", t=3, timeout=1500):
     k = t + 1
     name = "h_srun_%s_%s_t%d" % (case.name, kind, t)
     body = _body(case, kind, "t::stream_run::<%s, _, %d, %d>(&a)" % (case.mod, t, k))
-    meta = dict(template="stream_run", kind=kind, T=t, K=k, cap=case.maxlen + 1,
+    meta = dict(template="stream_run", replay_template="stream", kind=kind, T=t, K=k, cap=case.maxlen + 1, fixed_inputs={"spare": 1, "fault": 0},
                 symbolic=["stream bytes", "size of every read()"], note="complete run through the real constructor (initial state)")
     unwind = max(base_unwind(case, facts, t), case.maxlen + 3, t + 2, k + 1)
-    return Harness(name, case, body, unwind, [], meta, timeout=timeout, mem_gb=24, unwindset=stream_unwindset(case, t, case.maxlen + 1),
+    return Harness(name, case, body, unwind, [("hay", ("bytes", t))], meta, timeout=timeout, mem_gb=24, unwindset=stream_unwindset(case, t, case.maxlen + 1),
                    functions=["Automaton::try_stream_find_iter", "StreamChunkIter::new", "StreamFindIter::next", "Buffer::new"] + F_STREAM + F_KIND[kind])
 
 
@@ -525,14 +531,15 @@ def h_stream_replace(prop, case, facts, kind="dfa", t=3, wfault=False, timeout=1
     w = 2 * t + 2
     name = "h_srepl_%s_%s_t%d_wf%d" % (case.name, kind, t, int(wfault))
     body = _body(case, kind, "t::stream_replace::<%s, _, %d, %d, %s>(&a)" % (case.mod, t, w, "true" if wfault else "false"))
-    meta = dict(template="stream_replace", kind=kind, T=t, cap=case.maxlen + 1, writer_fault=wfault,
+    meta = dict(template="stream_replace", replay_template="stream", kind=kind, T=t, cap=case.maxlen + 1, writer_fault=wfault,
+                fixed_inputs={"spare": 1, "fault": int(wfault)},
                 symbolic=["stream bytes", "size of every read()"] + (["index of the failing write() call"] if wfault else []),
                 environment_stubs=["impl Read with symbolic read sizes", "impl Write appending to a fixed array" + (", failing at a symbolic call" if wfault else "")])
     unwind = max(base_unwind(case, facts, t), case.maxlen + 3, w + 2)
     unsat = set() if wfault else {"a writer failure after some output"}
     if t < 2:
         unsat.add("a replacement changes the length")
-    return Harness(name, case, body, unwind, [], meta, timeout=timeout, mem_gb=24, covers_required=True, unsat_ok=unsat,
+    return Harness(name, case, body, unwind, [("hay", ("bytes", t))], meta, timeout=timeout, mem_gb=24, covers_required=True, unsat_ok=unsat,
                    unwindset=stream_unwindset(case, t, case.maxlen + 1),
                    functions=["Automaton::try_stream_replace_all_with", "StreamChunkIter::new"] + F_STREAM + F_KIND[kind])
 
@@ -1187,7 +1194,10 @@ def _schedule(prop, tier, seed):
     if prop in ("C07", "C08", "C18"):
         pl = prop.lower()
         cases = [Case(pl + "_basic", ["abc", "bc", "c", "ab"], mk="std", sk="un"), Case(pl + "_two", ["ab", "b"], mk="std", sk="un"),
-                 Case(pl + "_aab", ["aab", "ab"], mk="std", sk="un")]
+                 Case(pl + "_aab", ["aab", "ab"], mk="std", sk="un"),
+                 # longest pattern >= shortest + 2 and its proper prefixes match nothing: a straddling match
+                 # keeps more than min_pattern_len bytes in the buffer across a roll (seeded change C08c)
+                 Case(pl + "_gap", ["abc", "c"], mk="std", sk="un")]
         one = Case(pl + "_one", ["a", "b"], mk="std", sk="un")
         if prop in ("C08", "C18"):
             cases.append(one)
@@ -1199,7 +1209,7 @@ def _schedule(prop, tier, seed):
             for c in cases:
                 core = "basic" in c.name or "two" in c.name
                 if prop in ("C07", "C08"):
-                    for spare in ((1, 2) if (core or not quick) else (1,)):
+                    for spare in ((1, 2) if (not quick or "two" in c.name) else (1,)):
                         hs.append(h_stream_step(prop, c, facts, "dfa", t=c.maxlen + spare + 2, spare=spare))
                     if c.maxlen >= 2:
                         # streams shorter than the longest pattern: the first fill hits the end of the
@@ -1210,7 +1220,7 @@ def _schedule(prop, tier, seed):
                         hs.append(h_stream_step(prop, c, facts, "cnfa", t=c.maxlen + 2, spare=1, timeout=2400))
                 if prop == "C07":
                     hs.append(Harness("h_sinit_%s_dfa" % c.name, c, _body(c, "dfa", "t::stream_init::<%s, _, 1>(&a)" % c.mod),
-                                      max(base_unwind(c, facts, 2), 6), [], dict(template="stream_init", kind="dfa", spare=1,
+                                      max(base_unwind(c, facts, 2), 6), [], dict(template="stream_init", replay_template="ac_meta", kind="dfa", spare=1,
                                       note="the constructor's state is the base case of the stream induction"),
                                       timeout=600, covers_required=False, functions=["Automaton::try_stream_find_iter", "StreamChunkIter::new", "Buffer::new"]))
                 if prop == "C07":
@@ -1234,8 +1244,9 @@ def _schedule(prop, tier, seed):
                     if c is one:
                         t_ = 1
                         hw = Harness("h_swfault_%s_dfa_t%d" % (c.name, t_), c, _body(c, "dfa", "t::stream_wfault::<%s, _, %d, %d>(&a)" % (c.mod, t_, 2 * t_ + 2)),
-                                     max(base_unwind(c, facts, t_), c.maxlen + 3, 2 * t_ + 4), [],
-                                     dict(template="stream_wfault", kind="dfa", T=t_, cap=c.maxlen + 1,
+                                     max(base_unwind(c, facts, t_), c.maxlen + 3, 2 * t_ + 4), [("hay", ("bytes", t_))],
+                                     dict(template="stream_wfault", replay_template="stream", kind="dfa", T=t_, cap=c.maxlen + 1,
+                                          fixed_inputs={"spare": 1, "fault": 1},
                                           symbolic=["stream bytes", "size of every read()", "index of the failing write() call"]),
                                      timeout=1500, mem_gb=24, unwindset=stream_unwindset(c, t_, c.maxlen + 1),
                                      unsat_ok={"a writer failure after some output"},
